@@ -77,6 +77,39 @@ Theorem C01_toric3d_all_stabilizers_commute_for_all_sizes :
 Proof. exact Toric3D.toric3d_stabilizers_commute. Qed.
 Print Assumptions C01_toric3d_all_stabilizers_commute_for_all_sizes.
 
+(** Layer P, Toric3DCode, every size >= 2: each listed X-type logical (a line of edges) commutes with every
+    vertex generator, each listed Z-type logical (a sheet of edges) commutes with every face generator
+    (logicals and generators of the same Pauli type commute trivially). *)
+Theorem C01_toric3d_logicals_commute_with_stabilizers_for_all_sizes :
+  forall (Lx Ly Lz : BinNums.Z) s, (2 <= Lx)%Z -> (2 <= Ly)%Z -> (2 <= Lz)%Z -> In s (Toric3D.stab_coords Lx Ly Lz) ->
+  (Toric3D.is_vertex s = true ->
+     Toric3D.overlap3 (Toric3D.support Lx Ly Lz s) (Toric3D.lx1 Lx) = false /\
+     Toric3D.overlap3 (Toric3D.support Lx Ly Lz s) (Toric3D.lx2 Ly) = false /\
+     Toric3D.overlap3 (Toric3D.support Lx Ly Lz s) (Toric3D.lx3 Lz) = false) /\
+  (Toric3D.is_vertex s = false ->
+     Toric3D.overlap3 (Toric3D.support Lx Ly Lz s) (Toric3D.lz1 Ly Lz) = false /\
+     Toric3D.overlap3 (Toric3D.support Lx Ly Lz s) (Toric3D.lz2 Lz Lx) = false /\
+     Toric3D.overlap3 (Toric3D.support Lx Ly Lz s) (Toric3D.lz3 Lx Ly) = false).
+Proof.
+  intros Lx Ly Lz s H1 H2 H3 Hs. split; intros T.
+  - exact (Toric3D.toric3d_logical_x_commute Lx Ly Lz s H1 H2 H3 Hs T).
+  - exact (Toric3D.toric3d_logical_z_commute Lx Ly Lz s H1 H2 H3 Hs T).
+Qed.
+Print Assumptions C01_toric3d_logicals_commute_with_stabilizers_for_all_sizes.
+
+(** Layer P, Toric3DCode, every size: logical X_i and logical Z_j share exactly an odd number of qubits
+    (one) when i = j and an even number (none) otherwise: they anticommute exactly when i = j. *)
+Theorem C01_toric3d_logical_pairing_for_all_sizes :
+  forall (Lx Ly Lz : BinNums.Z), (1 <= Lx)%Z -> (1 <= Ly)%Z -> (1 <= Lz)%Z ->
+  Toric3D.overlap3 (Toric3D.lx1 Lx) (Toric3D.lz1 Ly Lz) = true /\ Toric3D.overlap3 (Toric3D.lx1 Lx) (Toric3D.lz2 Lz Lx) = false /\
+  Toric3D.overlap3 (Toric3D.lx1 Lx) (Toric3D.lz3 Lx Ly) = false /\
+  Toric3D.overlap3 (Toric3D.lx2 Ly) (Toric3D.lz1 Ly Lz) = false /\ Toric3D.overlap3 (Toric3D.lx2 Ly) (Toric3D.lz2 Lz Lx) = true /\
+  Toric3D.overlap3 (Toric3D.lx2 Ly) (Toric3D.lz3 Lx Ly) = false /\
+  Toric3D.overlap3 (Toric3D.lx3 Lz) (Toric3D.lz1 Ly Lz) = false /\ Toric3D.overlap3 (Toric3D.lx3 Lz) (Toric3D.lz2 Lz Lx) = false /\
+  Toric3D.overlap3 (Toric3D.lx3 Lz) (Toric3D.lz3 Lx Ly) = true.
+Proof. exact Toric3D.toric3d_logical_pairing. Qed.
+Print Assumptions C01_toric3d_logical_pairing_for_all_sizes.
+
 (** Layer P, Planar3DCode (open boundaries), every size L_x, L_y, L_z >= 2: all generators pairwise commute. *)
 From PQ Require Planar3D.
 Theorem C01_planar3d_all_stabilizers_commute_for_all_sizes :
